@@ -158,26 +158,7 @@ def check(sc, r):
         out.append(C.v("liveness", "C05/run-%s/%s" % (r.failure, "+".join(roles)), "run ended %s: %s" % (r.failure, r.failure_info)))
         return out
     out += L.check_fsm_lockstep(ID, r)
-    for lab, st in sorted(r.final.items()):
-        if "error" in st or lab in dead:
-            continue
-        tr = r.evts(lab, "EVT_FSM_TRANSITION")
-        if not tr:
-            continue
-        cause = "other"
-        if tr[-1]["next"] != "Sta1" or st["fsm"] != "Sta1":
-            if lab.startswith("acc") and not r.evts(lab, "EVT_REQUESTED") and not st.get("dul_alive"):
-                # the association thread gave up waiting for the A-ASSOCIATE-RQ (ACSE timeout) and stopped the provider
-                cause = "request-not-received-within-acse-timeout"
-            if lab.startswith("req") and any(h.get("origin") == "_negotiate_as_requestor" for h in r.evts(lab, "EVT_ABORTED")):
-                # the provider reported an abort while the requestor was negotiating; ACSE stops the DUL thread at once
-                cause = "aborted-during-negotiation"
-            out.append(C.v("back-to-idle", "C05/not-idle/%s/%s/%s" % (lab[:3], st["fsm"], cause),
-                           "%s provider ended in %s (last transition %s+%s->%s)" % (lab, st["fsm"], tr[-1]["state"], tr[-1]["fsm_event"], tr[-1]["next"])))
-        if st.get("dul_alive") or st.get("alive"):
-            out.append(C.v("back-to-idle", "C05/thread-left/%s" % lab[:3], "%s: threads still running at the end: %s" % (lab, st)))
-        if r.evts(lab, "EVT_CONN_OPEN") and not st.get("sock_closed"):
-            out.append(C.v("back-to-idle", "C05/socket-open/%s/%s/%s" % (lab[:3], st["fsm"], cause), "%s: transport connection not closed at the end: %s" % (lab, st)))
+    out += L.check_back_to_idle(ID, r, dead)
     return out
 
 
